@@ -660,22 +660,24 @@ impl TimeZoneProvider for FsTzdbProvider {
         identifier: &str,
         iso_datetime: IsoDateTime,
     ) -> TemporalResult<Vec<EpochNanoseconds>> {
-        let epoch_nanos = iso_datetime.as_nanoseconds()?;
-        let seconds = epoch_nanos.0.div_euclid(1_000_000_000) as i64;
+        // NOTE: the wall-clock reading of a valid instant lies up to the zone's offset outside of
+        // the instant range when it is read as UTC; the candidates are range checked below.
+        let epoch_nanos = iso_datetime.as_unchecked_nanoseconds();
+        let seconds = epoch_nanos.div_euclid(1_000_000_000) as i64;
         let tzif = self.get(identifier)?;
         let local_time_record_result = tzif.v2_estimate_tz_pair(&Seconds(seconds))?;
         let result = match local_time_record_result {
             LocalTimeRecordResult::Empty => Vec::default(),
             LocalTimeRecordResult::Single(r) => {
                 let epoch_ns =
-                    EpochNanoseconds::try_from(epoch_nanos.0 - seconds_to_nanoseconds(r.offset))?;
+                    EpochNanoseconds::try_from(epoch_nanos - seconds_to_nanoseconds(r.offset))?;
                 vec![epoch_ns]
             }
             LocalTimeRecordResult::Ambiguous { std, dst } => {
                 let std_epoch_ns =
-                    EpochNanoseconds::try_from(epoch_nanos.0 - seconds_to_nanoseconds(std.offset))?;
+                    EpochNanoseconds::try_from(epoch_nanos - seconds_to_nanoseconds(std.offset))?;
                 let dst_epoch_ns =
-                    EpochNanoseconds::try_from(epoch_nanos.0 - seconds_to_nanoseconds(dst.offset))?;
+                    EpochNanoseconds::try_from(epoch_nanos - seconds_to_nanoseconds(dst.offset))?;
                 vec![std_epoch_ns, dst_epoch_ns]
             }
         };
